@@ -59,6 +59,12 @@ MALFORMED = [
     lambda rng, a: '',
     lambda rng, a: fmt(a) + ' - ' + 'xx/yy/zz',
     lambda rng, a: f'{a.year:04d}/00/10',
+    # more than one '-' in an entry: three or more parts, whatever the pieces look like
+    lambda rng, a: fmt(a) + ' - ' + (a + datetime.timedelta(days=rng.randint(0, 9))).isoformat(),
+    lambda rng, a: fmt(a) + ' -- ' + fmt(a + datetime.timedelta(days=rng.randint(0, 9))),
+    lambda rng, a: fmt(a) + ' - ' + fmt(a + datetime.timedelta(days=rng.randint(0, 9))) + ' -',
+    lambda rng, a: fmt(a) + ' - ' + f'{a.year:04d}/{a.month:02d}-{min(a.day + 1, 28):02d}',
+    lambda rng, a: a.isoformat(),
 ]
 
 
@@ -150,7 +156,7 @@ def run(out, tier, model_ok=True):
     key = (tuple(c['entries']),) if (len(c['entries']) >= 2 or c['malformed'] is not None) else None
     out.count(key)
   out.rule = ('generated lists of day / range strings (YYYY/MM/DD, years 1700-2200, month/leap/century boundaries, '
-              'overlaps, duplicates, shuffled, 5 separator spellings) and a malformed stream (10 kinds); '
+              'overlaps, duplicates, shuffled, 5 separator spellings) and a malformed stream (15 kinds); '
               'non-trivial = at least two entries or a malformed entry; distinct by entry list')
   out.extra.update({'well_formed_cases': n_ok, 'malformed_cases': n_bad, 'cases_with_overlap': overl,
                     'malformed_kinds': len(MALFORMED)})
